@@ -3,7 +3,7 @@ import uuid
 
 from dsim import seams
 from dsim.core import HarnessError
-from props.common import gen_strategy, quiet_logging, Violations
+from props.common import set_knob, gen_strategy, quiet_logging, Violations
 from worlds.full import FullWorld, ReqObs
 
 ID = 'C43'
@@ -27,7 +27,7 @@ WORLD_INFO = {'real': ['ControlConnection.wait_for_schema_agreement/_get_schema_
               'stub': ['libev C binding', 'sockets/TCP', 'ThreadPoolExecutor', 'fake nodes with per-node schema version timelines']}
 ASSUMPTIONS = ['poll replies are delayed but never lost, so a served poll is a seen poll',
                'a node crashed (RST, gossip DOWN event) 1.5 s before the first statement counts as marked down; this is checked on Host.is_up']
-REQUIRED_PROBES = ['disagreeing_poll', 'agreement_after_wait', 'wait_exhausted', 'peer_with_unknown_liveness', 'peer_marked_down',
+REQUIRED_PROBES = ['peer_came_up_during_wait', 'disagreeing_poll', 'agreement_after_wait', 'wait_exhausted', 'peer_with_unknown_liveness', 'peer_marked_down',
                    'client_timeout_during_wait']
 
 
@@ -56,7 +56,17 @@ def gen_plan(rng, tier):
                      'timeout': rng.choice([10.0, 10.0, W * 0.5, W + 1.0])})
     for nd in nodes:
         nd['release'] = nodes[0]['release']
-    return {'cluster': {'nodes': nodes}, 'version': 4, 'W': W, 'ignored': ignored, 'down': down, 'ddls': ddls,
+    mid = None
+    if down is not None and rng.random() < 0.6:
+        # the node that is down when the waits begin comes back during one of them (UP event), still on its old schema version,
+        # while the other nodes converge only later in that wait
+        k = rng.randrange(len(ddls))
+        mid = {'ddl': k, 'at': round(rng.choice([0.1, 0.2, 0.4]) * W, 3)}
+        for i in range(n):
+            if i not in (0, down):
+                ddls[k]['lag'][str(i)] = round(rng.choice([0.5, 0.6, 0.75]) * W, 3)
+        ddls[k]['timeout'] = 10.0
+    return {'cluster': {'nodes': nodes}, 'version': 4, 'W': W, 'ignored': ignored, 'down': down, 'mid_restart': mid, 'ddls': ddls,
             'slow_polls': rng.choice([1, 1, 10, 40]), 'strategy': gen_strategy(rng), 'time_jump_p': 0}
 
 
@@ -85,6 +95,17 @@ def run_plan(plan, seed, choices=None):
             sim.at(lag, (lambda n=n, v=v: setattr(n, 'schema_version', v)), 'schema converge n%d' % i)
         return v
 
+    timeline = []        # (seq, address, is_up) for every Host.set_up / set_down the driver performs
+    for name, val in (('set_up', True), ('set_down', False)):
+        orig = getattr(w.cpool.Host, name)
+
+        def wrapper(self_, *a, _orig=orig, _val=val, **k):
+            r = _orig(self_, *a, **k)
+            timeline.append((sim.nlog, str(self_.endpoint.address), _val))
+            sim.rec('host.state', '%s %s' % (self_.endpoint.address, 'up' if _val else 'down'))
+            return r
+        set_knob(w.cpool.Host, name, wrapper)
+
     def main():
         lbp = w.cpol.DCAwareRoundRobinPolicy(local_dc='dc1', used_hosts_per_remote_dc=0)
         try:
@@ -102,10 +123,14 @@ def run_plan(plan, seed, choices=None):
             w.sleep(1.5)
         hosts = dict((str(h.endpoint.address), h) for h in cluster.metadata.all_hosts())
         st['is_up'] = dict((a, h.is_up) for a, h in hosts.items())
+        st['is_up_seq'] = sim.nlog
         w.net.slow[fc.nodes[0].addr] = plan['slow_polls']
         for k, d in enumerate(plan['ddls']):
             rec = {'k': k, 'via': d['via'], 't0': sim.vnow(), 'seq0': sim.nlog, 'timeout': d['timeout']}
             st['waits'].append(rec)
+            mr = plan.get('mid_restart')
+            if mr and mr['ddl'] == k and plan['down'] is not None:
+                sim.at(mr['at'], (lambda: (fc.restart(plan['down'], announce=0.0), sim.probe('peer_came_up_during_wait'))), 'mid-wait restart')
             if d['via'] == 'ddl':
                 rid = 100 + k
                 fc.scripts[rid] = [{'kind': 'schema_change', 'delay': 0.002, 'target': 'TABLE', 'keyspace': 'ks1', 'name': 't%d' % k}]
@@ -174,13 +199,40 @@ def run_plan(plan, seed, choices=None):
     for e in fc.nodes[0].log:
         seq_time[e['seq']] = e['t']
 
-    def agrees(pair):
+    def down_at(seq):
+        d = set(down_addrs)
+        for (sq, a, up) in timeline:
+            if sq <= st.get('is_up_seq', 0):
+                continue
+            if sq > seq:
+                break
+            if up:
+                d.discard(a)
+            else:
+                d.add(a)
+        return d
+
+    def agrees_under(pair, down):
         vs = set([pair[1]])
         for (peer, ver) in pair[2]:
-            if peer in down_addrs or ver in (None, 'None'):
+            if peer in down or ver in (None, 'None'):
                 continue
             vs.add(ver)
         return len(vs) == 1
+
+    pair_seqs = [pr[0] for pr in pairs]
+
+    def judge(pair):
+        """(possibly agrees, certainly agrees): the driver reads is_up when it processes the answer, some time between the moment
+        the node served this poll and the moment it served the next one; every host-state snapshot in that interval counts."""
+        later = [x for x in pair_seqs if x > pair[0]]
+        end = later[0] if later else 10 ** 12
+        snaps = [down_at(pair[0])] + [down_at(sq) for (sq, a, up) in timeline if pair[0] < sq <= end]
+        res = [agrees_under(pair, d) for d in snaps]
+        return any(res), all(res)
+
+    def agrees(pair):
+        return judge(pair)[0]
 
     nontrivial = False
     for rec in st['waits']:
@@ -223,7 +275,7 @@ def run_plan(plan, seed, choices=None):
             sim.probe('wait_exhausted')
             if elapsed < W - 0.05:
                 V.add('C43/false-complete', 'gave-up-early', 'statement %d (%s): disagreement reported after %.2f s, wait budget %.2f s' % (rec['k'], rec['via'], elapsed, W))
-            early = [pr for pr in agreed_polls if seq_time.get(pr[0], 1e9) < rec['t_ddl'] + W - 0.6]
+            early = [pr for pr in agreed_polls if judge(pr)[1] and seq_time.get(pr[0], 1e9) < rec['t_ddl'] + W - 0.6]
             if early:
                 V.add('C43/false-complete', 'disagreement-reported-despite-agreeing-poll',
                       'statement %d (%s): disagreement reported although a poll served at %.2f s into the wait agreed' %
